@@ -98,6 +98,14 @@ class FileHandlerFactory(HandlerFactory):
         encoding = section.encoding
         delay = section.delay
 
+        for name, number in (("max-size", max_bytes),
+                             ("old-files", old_files),
+                             ("interval", interval)):
+            if number < 0:
+                # (a negative interval sends the rollover of the timed
+                # handler into an endless loop)
+                raise ValueError("%s must not be negative" % name)
+
         def check_std_stream():
             if max_bytes or old_files or when:
                 raise ValueError("cannot rotate " + path)
